@@ -41,6 +41,8 @@ class Source:
         self.overlay: Dict[str, str] = dict(overlay or {})
         self._cache: Dict[str, str] = {}
         self.renames: List[str] = []
+        self._public_map: Optional[Dict[str, str]] = None
+        self._public_pattern: Any = None
 
     def with_overlay(self, overlay: Dict[str, str]) -> "Source":
         new_overlay = dict(self.overlay)
@@ -88,6 +90,19 @@ class Source:
         for note in notes:
             if note not in self.renames:
                 self.renames.append(note)
+        if self._public_map is None:
+            self._public_map = {}
+            mapping, public_notes = canon.public_rename_map(self._read_raw, self.python_files())
+            self._public_map = mapping
+            for note in public_notes:
+                if note not in self.renames:
+                    self.renames.append(note)
+            if mapping:
+                import re as _re
+
+                self._public_pattern = _re.compile(r"(?<![A-Za-z0-9_])(" + "|".join(_re.escape(n) for n in sorted(mapping, key=len, reverse=True)) + r")(?![A-Za-z0-9_])")
+        if self._public_map:
+            text = self._public_pattern.sub(lambda m: self._public_map[m.group(1)], text)
         return text
 
     def _read_raw(self, rel: str) -> str:
